@@ -3,11 +3,13 @@
 
    H   : HMAC-SHA256 under the BNG's secret, an arbitrary function argument
    e   : environment of a run (H, cookie lifetime, wall clock, subscriber-group matcher)
-   variant = the four repairs made during this work as flags (owner check b12b708, id-0 guard 731c2cc, id
-   reservation 46cb3dc, guarded index removal 9893c59).  Repaired = all four = /repo HEAD; the main theorems are
-   about it (stated for every variant that has the flags a theorem needs).  Unreserved / ReserveOnly / GuardOnly /
-   Defective lack some of them and only appear in the `_refuted` theorems, which record what each fix removed.
-   reserving v = id-0 guard and reservation present; owning v = reserving v and owner check present.
+   variant = the repairs made during this work as flags: owner check (b12b708), id-0 guard (731c2cc), id
+   reservation (46cb3dc), guarded index removal (9893c59), HA restore refuses an unusable id (proposed,
+   fixes/C04_hasync_id_in_use.patch).  Repaired = all of them; the main theorems are about it (stated for every
+   variant that has the flags a theorem needs).  NoHACheck = /repo HEAD until that patch is applied.  Unreserved /
+   ReserveOnly / GuardOnly / Defective lack earlier repairs and only appear in the `_refuted` theorems, which record
+   what each fix removed.
+   reserving v = id-0 guard, reservation and HA check present; owning v = reserving v and owner check present.
    alive s x = x is in sidIndex or sessions, or has been built by a handlePADR that has not indexed it yet. *)
 From Coq Require Import List ZArith NArith Bool Lia Arith.
 From stdpp Require Import gmap nmap.
@@ -44,10 +46,12 @@ Theorem C04_validate_accepts_iff : forall H ttl now c mac sv cv, validate H ttl 
 Proof. exact validate_accepts_iff. Qed.
 Print Assumptions C04_validate_accepts_iff.
 
-(* soundness under H_mac_unforgeable (first premise): an accepted cookie is one this BNG issued
-   for the same MAC and VLAN tags, and it is within its lifetime *)
+(* soundness under H_mac_unforgeable (first premise), stated for the single (message, tag) pair presented:
+   macd t c is the one message Validate MACs for cookie c shown by tuple t; if the tag in the cookie is its MAC,
+   that message is one Generate has MACed.  Other preimages of the tag are irrelevant (H need not be injective).
+   Then: an accepted cookie is one this BNG issued for the same MAC and VLAN tags, within its lifetime *)
 Theorem C04_cookie_sound : forall H ttl now c t issued,
-  (forall d, firstn 32 c = H d -> In d (map enc_issue issued)) ->
+  (firstn 32 c = H (macd t c) -> In (macd t c) (map enc_issue issued)) ->
   Forall wf_issue issued -> wf_tuple t ->
   validate H ttl now c t = true ->
   exists ts, In (t, ts) issued /\ (now - Z.of_N ts * ns_per_s <= ttl)%Z /\ skipn 32 c = put32 ts.
@@ -56,13 +60,23 @@ Print Assumptions C04_cookie_sound.
 
 Example C04_cookie_sound_nonvacuous :
   let c := generate oneH 1000 tA in
-  (forall d, firstn 32 c = oneH d -> In d (map enc_issue [(tA, 1000)])) /\
+  (firstn 32 c = oneH (macd tA c) -> In (macd tA c) (map enc_issue [(tA, 1000)])) /\
   Forall wf_issue [(tA, 1000)] /\ wf_tuple tA /\
   validate oneH 60000000000 1000500000000 c tA = true /\
   validate oneH 60000000000 1061500000000 c tA = false /\
   validate oneH 60000000000 1000500000000 c tB = false.
 Proof. exact cookie_sound_nonvacuous. Qed.
 Print Assumptions C04_cookie_sound_nonvacuous.
+
+(* ... and with a NON-injective H (the tag has further preimages that were never issued) the premise still holds *)
+Example C04_cookie_sound_nonvacuous_noninjective :
+  let c := generate toyH 1000 tA in
+  (firstn 32 c = toyH (macd tA c) -> In (macd tA c) (map enc_issue [(tA, 1000)])) /\
+  Forall wf_issue [(tA, 1000)] /\ wf_tuple tA /\
+  validate toyH 60000000000 1000500000000 c tA = true /\
+  toyH (macd tA c ++ [0]) = toyH (macd tA c) /\ ~ In (macd tA c ++ [0]) (map enc_issue [(tA, 1000)]).
+Proof. exact cookie_sound_nonvacuous_noninjective. Qed.
+Print Assumptions C04_cookie_sound_nonvacuous_noninjective.
 
 (* wrong length (all 36 truncations, any extension) is rejected, whatever H is *)
 Theorem C04_cookie_wrong_length : forall H ttl now c t, validate H ttl now c t = true -> length c = 36%nat.
@@ -154,11 +168,12 @@ Proof. exact padr_expired_no_state. Qed.
 Print Assumptions C04_padr_expired_no_state.
 
 (* composite: a session is created only for a cookie this BNG issued, within its lifetime, for the same MAC
-   address and VLAN tags.  Premise 1 is H_mac_unforgeable for the ONE tag this PADR presents (the first 32
-   bytes of the AC-Cookie ParseTags extracts from it): if that tag is H of some message, the message is one
-   Generate has MACed.  Nothing is assumed about other byte strings. *)
+   address and VLAN tags.  Premise 1 is H_mac_unforgeable for the ONE (message, tag) pair this PADR presents: the
+   tag is the first 32 bytes of the AC-Cookie ParseTags extracts, the message is the one Validate recomputes from
+   the sender's tuple and the cookie's timestamp bytes.  Nothing is assumed about other messages or tags. *)
 Theorem C04_admission : forall v e s t p s' sid uid issued,
-  (forall tg d, parse_tags p = Ok tg -> firstn 32 (t_cookie tg) = e_H e d -> In d (map enc_issue issued)) ->
+  (forall tg, parse_tags p = Ok tg -> firstn 32 (t_cookie tg) = e_H e (macd t (t_cookie tg)) ->
+              In (macd t (t_cookie tg)) (map enc_issue issued)) ->
   Forall wf_issue issued -> wf_tuple t ->
   step v e s (PADR t p) = Some (s', OPads sid uid) ->
   exists ts, In (t, ts) issued /\ (e_now_ns e - Z.of_N ts * ns_per_s <= e_ttl e)%Z.
@@ -166,7 +181,8 @@ Proof. exact admission. Qed.
 Print Assumptions C04_admission.
 
 Theorem C04_admission_interleaved : forall v e s t p s' sid uid issued,
-  (forall tg d, parse_tags p = Ok tg -> firstn 32 (t_cookie tg) = e_H e d -> In d (map enc_issue issued)) ->
+  (forall tg, parse_tags p = Ok tg -> firstn 32 (t_cookie tg) = e_H e (macd t (t_cookie tg)) ->
+              In (macd t (t_cookie tg)) (map enc_issue issued)) ->
   Forall wf_issue issued -> wf_tuple t ->
   step v e s (PBEGIN t p) = Some (s', OPend sid uid) ->
   exists ts, In (t, ts) issued /\ (e_now_ns e - Z.of_N ts * ns_per_s <= e_ttl e)%Z.
@@ -174,7 +190,8 @@ Proof. exact admission_pend. Qed.
 Print Assumptions C04_admission_interleaved.
 
 Example C04_admission_nonvacuous :
-  (forall tg d, parse_tags padrOne = Ok tg -> firstn 32 (t_cookie tg) = oneH d -> In d (map enc_issue [(tA, 1000)])) /\
+  (forall tg, parse_tags padrOne = Ok tg -> firstn 32 (t_cookie tg) = oneH (macd tA (t_cookie tg)) ->
+              In (macd tA (t_cookie tg)) (map enc_issue [(tA, 1000)])) /\
   Forall wf_issue [(tA, 1000)] /\ wf_tuple tA /\
   (exists s', step Repaired envOne st0 (PADR tA padrOne) = Some (s', OPads 1 0)) /\
   oneH (enc_issue (tB, 1000)) <> firstn 32 (generate oneH 1000 tA) /\
@@ -182,20 +199,21 @@ Example C04_admission_nonvacuous :
 Proof. exact admission_nonvacuous. Qed.
 Print Assumptions C04_admission_nonvacuous.
 
-(* every session object that becomes alive comes from a PADR whose cookie validated (whole, or its first half)
-   or from a restore; in every variant *)
+(* every session object that becomes alive comes from a PADR whose cookie validated (whole, or its first half),
+   from a start-up restore, or from the HA peer's checkpoint; in every variant *)
 Theorem C04_sessions_only_from_padr : forall v e s o s' r x, step v e s o = Some (s', r) -> alive s' x ->
   alive s x \/ (exists p, (o = PADR (s_tup x) p /\ r = OPads (s_sid x) (s_uid x)) \/
                           (o = PBEGIN (s_tup x) p /\ r = OPend (s_sid x) (s_uid x))) \/
-  (exists a, o = RESTORE (s_sid x) (s_tup x) a).
+  (exists a, o = RESTORE (s_sid x) (s_tup x) a \/ o = HASYNC (s_sid x) (s_tup x) a).
 Proof. exact step_new_alive. Qed.
 Print Assumptions C04_sessions_only_from_padr.
 
 (* ---------------------------------------------------------------- session ids *)
-(* after ANY history — any packets, restores of fresh non-zero ids, any counter position, any number of
+(* after ANY history — any packets, start-up restores of fresh non-zero ids, run-time HA restores of ARBITRARY
+   peer-allocated ids (0, in use, reserved: refused), any counter position, any number of
    long-lived sessions, across the 16-bit wrap, and ANY interleaving of the two halves (allocation / indexing)
    of any number of concurrent PADRs — all sessions alive in the table have pairwise distinct ids in 1..65535.
-   Holds for every variant with the id-0 guard and id reservation (Repaired, ReserveOnly). *)
+   Holds for every variant with the id-0 guard, id reservation and the HA check (Repaired). *)
 Theorem C04_sid_distinct_nonzero : forall v e ops s outs x y, reserving v ->
   run v e st0 ops = Some (s, outs) -> alive s x -> alive s y ->
   0 < s_sid x < 65536 /\ (s_sid x = s_sid y -> x = y).
@@ -235,6 +253,40 @@ Example C04_interleaving_nonvacuous :
   end.
 Proof. exact interleaving_nonvacuous. Qed.
 Print Assumptions C04_interleaving_nonvacuous.
+
+(* run-time HA restore (restoreFromHASync), with the check: a checkpoint whose id is 0, indexed or reserved
+   changes nothing ... *)
+Theorem C04_hasync_refused : forall v e s sid t a s' r, v_ha_check v = true -> sid < 65536 ->
+  sid = 0 \/ id_used v s sid = true -> step v e s (HASYNC sid t a) = Some (s', r) -> s' = s /\ r = ONone.
+Proof. exact hasync_refused. Qed.
+Print Assumptions C04_hasync_refused.
+
+(* ... and any other id is installed, every other id's entry untouched (so the check does not refuse everything) *)
+Theorem C04_hasync_accepted : forall v e s sid t a, v_ha_check v = true -> 0 < sid < 65536 -> id_used v s sid = false ->
+  exists s', step v e s (HASYNC sid t a) = Some (s', OSynced (ctr s)) /\
+    by_sid s' !! sid = Some {| s_uid := ctr s; s_sid := sid; s_tup := t |} /\
+    (forall k, k <> sid -> by_sid s' !! k = by_sid s !! k).
+Proof. exact hasync_accepted. Qed.
+Print Assumptions C04_hasync_accepted.
+
+(* /repo HEAD before fixes/C04_hasync_id_in_use.patch: the peer's id 1 is installed over the live local session
+   with id 1: two sessions alive in c.sessions carry id 1, and the local one is no longer reached by its own
+   frames.  Known finding ha-restore-overwrites-live-session-id; replayed on the real code (harness op H). *)
+Theorem C04_hasync_refuted : exists e ops s outs xA xB,
+  run NoHACheck e st0 ops = Some (s, outs) /\
+  by_tup s !! tA = Some xA /\ by_tup s !! tB = Some xB /\ xA <> xB /\ s_sid xA = 1 /\ s_sid xB = 1 /\
+  by_sid s !! 1 = Some xB /\ outs = [OPads 1 0; OSynced 1; ONone].
+Proof. exact hasync_refuted. Qed.
+Print Assumptions C04_hasync_refuted.
+
+Example C04_hasync_nonvacuous :
+  match run Repaired env0 st0 [padr_of tA; HASYNC 1 tB []; HASYNC 0 tB []; HASYNC 7 tB []; SESS tA 1] with
+  | Some (s, outs) => outs = [OPads 1 0; ONone; ONone; OSynced 1; OReach 0] /\
+      (exists x, by_sid s !! 7 = Some x /\ s_tup x = tB)
+  | None => False
+  end.
+Proof. exact hasync_repaired. Qed.
+Print Assumptions C04_hasync_nonvacuous.
 
 (* the invariant behind it is inductive from any table that satisfies it *)
 Theorem C04_table_invariant : forall v e s o s' r, reserving v -> Inv s -> step v e s o = Some (s', r) -> Inv s'.
